@@ -472,13 +472,13 @@ theorem C07_reachable (s : Sys) (l : List Step) (inv : ClaimInv s.hub) (hl : s.h
           (by
             intro x m' x' ms hp hx
             cases handle_touch x x' m' ms hx with
-            | none h => rw [h.hub]; exact hp
-            | hub e sender funds hm hx' b t r d g => exact C07_hub_step _ _ _ _ _ _ _ hp.1 hp.2 hx'
-            | bsei blk rw sender tm hx' h t r d g => rw [h]; exact hp
-            | stsei blk sender tm hx' h b r d g => rw [h]; exact hp
-            | reward tok dsp bal sender rm hx' h b t d g => rw [h]; exact hp
-            | disp env sender dm hx' h b t r g => rw [h]; exact hp
-            | reg s1 sender rm h1 hx' h b t r d => rw [h]; exact hp)
+            | none h _ _ => rw [h.hub]; exact hp
+            | hub e sender funds hm _ _ hx' b t r d g => exact C07_hub_step _ _ _ _ _ _ _ hp.1 hp.2 hx'
+            | bsei s1 sender funds tm _ _ hx' h t r d g => rw [h]; exact hp
+            | stsei blk sender funds tm _ hx' h b r d g => rw [h]; exact hp
+            | reward s1 sender funds rm _ _ hx' h b t d g => rw [h]; exact hp
+            | disp env sender funds dm _ hx' h b t r g => rw [h]; exact hp
+            | reg s1 sender funds rm _ h1 hx' h b t r d => rw [h]; exact hp)
           s m ⟨inv, hl⟩
       | env e =>
         have hne : ∀ u b a, e ≠ .seedLegacy u b a := by
@@ -487,5 +487,10 @@ theorem C07_reachable (s : Sys) (l : List Step) (inv : ClaimInv s.hub) (hl : s.h
         show ClaimInv (s.env e).hub ∧ (s.env e).hub.legacy = []
         rw [sc.hub]; exact ⟨inv, hl⟩
     exact ih (s.step st) one.1 one.2 hrest
+
+/-! Non-vacuity of `C07_reachable`: the genesis state. -/
+example : ClaimInv genesisSys.hub ∧ genesisSys.hub.legacy = [] :=
+  ⟨ClaimInv.of_same (h := (hubInit 1 0 30 100 0 D 1 3).toOption.getD default) ⟨rfl, rfl, rfl, rfl, rfl, rfl, rfl⟩
+    (C07_init 1 0 30 100 0 D 1 3 _ rfl), rfl⟩
 
 end Krp
